@@ -3,8 +3,11 @@
 package props
 
 import (
+	"runtime"
+
 	"encoding/json"
 	"fmt"
+	"github.com/reeflective/readline"
 	"math/rand/v2"
 	"regexp"
 	"sort"
@@ -215,4 +218,12 @@ func jsonInto(raw json.RawMessage, v any) {
 		return
 	}
 	json.Unmarshal(raw, v)
+}
+
+type readlineShell = readline.Shell
+
+func stackBuf() []byte {
+	buf := make([]byte, 16384)
+	n := runtime.Stack(buf, false)
+	return buf[:n]
 }
